@@ -37,7 +37,7 @@ ANCHORS = [
     "acnportal.acnsim.models.ev:EV.charge",
 ]
 REQUIRED = ["charge_calls_judged", "regime:ideal", "regime:l2-continuous", "regime:l2-stepwise",
-            "regime:l2-continuous+noise", "regime:l2-stepwise+noise", "sim_cells_checked", "suite:charge_calls_judged"]
+            "regime:l2-continuous+noise", "regime:l2-stepwise+noise", "sim_cells_checked", "suite:charge_calls_judged", "resets_above_capacity", "resets_within_capacity"]
 BUDGET_S = {"quick": 200, "thorough": 2400}
 
 CUR = {"obs": None}
@@ -215,6 +215,25 @@ def _run_seq(case, obs):
     n0 = obs.events["nontrivial_calls"]
     for p in _pilots(case, rng, b):
         c0, cap, _, _ = battery_state(batt)
+        r = rng.random()
+        if r < 0.03 and cap is not None:
+            # a reset above capacity is refused and must leave the battery as it was (then keep charging)
+            try:
+                batt.reset(cap * rng.choice([1.0000001, 1.5, 10]) + rng.choice([0, 1e-9, 1]))
+                refused = False
+            except ValueError:
+                refused = True
+            obs.ev("resets_above_capacity")
+            c_after = battery_state(batt)[0]
+            if refused and c_after != c0:
+                obs.violate("refused_reset_changed_charge", f"reset above capacity raised but stored charge went {c0!r} -> {c_after!r} (capacity {cap!r})",
+                            battery=b)
+            if c_after is not None and c_after > cap * (1 + 1e-9):
+                obs.violate("charge_above_capacity", f"after reset above capacity: stored charge {c_after!r} > capacity {cap!r}", battery=b)
+            c0 = c_after
+        elif r < 0.05 and cap is not None:
+            batt.reset(rng.uniform(0, cap))
+            obs.ev("resets_within_capacity")
         batt.charge(p, case["V"], case["T"])
         obs.regime(name)
         if b["t"] == "l2" and c0 is not None:
